@@ -56,6 +56,24 @@ class World1:
         return {"status": status, "error": error, "token": token, "secret": secret, "verifier": verifier}
 
     def step(self, op):
+        """one request; with op["fault"] = k the k-th storage callback of the request raises (C19)"""
+        st = self.store
+        st.trace, st.events = [], []
+        st.fail_at = op.get("fault")
+        try:
+            o = self._step(op)
+        finally:
+            st.fail_at = None
+        if op.get("fault") is not None:
+            if str(o.get("raised", "")).startswith("Fault"):
+                return {"fault": True, "done": list(st.events), "store": self.snapshot()}
+            if len(st.trace) <= op["fault"] and "raised" not in o:
+                o = dict(o, nofault=True)
+            else:
+                o = dict(o, swallowed=True, done=list(st.events), store=self.snapshot())
+        return o
+
+    def _step(self, op):
         k = op["op"]
         try:
             if k == "advance":
@@ -99,7 +117,7 @@ def is_valid_cb(u):
     return bool(p.scheme and p.hostname)
 
 
-def gen_history(rng, length, methods):
+def gen_history(rng, length, methods, fault_p=0.0):
     w = World1(methods)
     ops, temps, creds = [], [], []
     ncount = [0]
@@ -123,7 +141,7 @@ def gen_history(rng, length, methods):
     for _ in range(length):
         k = rng.choice(["initiate"] * 3 + ["authorize"] * 3 + ["exchange"] * 5 + ["access"] * 4 + ["advance", "replay", "replay"])
         if k == "replay" and ops:
-            prev = rng.choice([o for o in ops if o["op"] in ("initiate", "exchange", "access")] or [None])
+            prev = rng.choice([o for o in ops if o["op"] in ("initiate", "exchange", "access") and "fault" not in o] or [None])
             if prev is None:
                 continue
             op = dict(prev)
@@ -147,6 +165,16 @@ def gen_history(rng, length, methods):
             op = {"op": "advance", "dt": rng.choice([1, 100, 299, 301, 4000])}
         else:
             continue
+        if fault_p and op["op"] != "advance" and rng.random() < fault_p:
+            # C19: the request first hits a storage fault at its k-th callback; the repetition is re-signed with a new nonce
+            for i in range(rng.choice([1, 1, 2])):
+                fop = dict(op, fault=rng.choice([0, 1, 1, 2, 2, 3, 3, 4, 5]))
+                if fop.get("nonce") is not None:
+                    fop["nonce"] = f"{fop['nonce']}f{i}"
+                fo = w.step(fop)
+                if fo.get("fault"):
+                    fop["done"] = fo["done"]
+                ops.append(fop)
         o = w.step(op)
         ops.append(op)
         if "raised" in o:
